@@ -141,13 +141,13 @@ Theorem ListArray_getitem_next_array_advanced_spec tocarry toadvanced starts sto
   ListArray_getitem_next_array_advanced tocarry toadvanced starts stops fromarray fromadvanced lenstarts lenarray lencontent
   = KOk (filled 0 lenstarts (fun i => let a := at_ fromarray (at_ fromadvanced i) in
                                       at_ starts i + (if a <? 0 then a + (at_ stops i - at_ starts i) else a)) tocarry,
-         filled 0 lenstarts (fun i => i) toadvanced).
+         filled 0 lenstarts (fun i => at_ fromadvanced i) toadvanced).
 Proof.
   intros Hn H1 H2 H3 H4 H5 Hv Hr. unfold ListArray_getitem_next_array_advanced.
   set (g := fun i => let a := at_ fromarray (at_ fromadvanced i) in
                      at_ starts i + (if a <? 0 then a + (at_ stops i - at_ starts i) else a)).
   match goal with |- kfor 0 lenstarts ?b _ = _ =>
-    destruct (kfor_inv b (fun j st => st = (filled 0 j g tocarry, filled 0 j (fun i => i) toadvanced))
+    destruct (kfor_inv b (fun j st => st = (filled 0 j g tocarry, filled 0 j (fun i => at_ fromadvanced i) toadvanced))
                 0 lenstarts (tocarry, toadvanced)) as (s' & E & P); auto end.
   - intros j st Hj ->. destruct (Hv j Hj) as (V1 & V2). destruct (Hr j Hj) as (R1 & R2).
     rewrite (kget_at starts), (kget_at stops) by lia. cbn [kbind].
@@ -160,7 +160,7 @@ Proof.
     rewrite kupd_ok by (rewrite zlen_filled; lia). cbn [kbind].
     rewrite kupd_ok by (rewrite zlen_filled; lia). cbn [kbind].
     pose proof (filled_step 0 j g tocarry ltac:(lia) ltac:(lia) ltac:(lia)) as F1.
-    pose proof (filled_step 0 j (fun i => i) toadvanced ltac:(lia) ltac:(lia) ltac:(lia)) as F2.
+    pose proof (filled_step 0 j (fun i => at_ fromadvanced i) toadvanced ltac:(lia) ltac:(lia) ltac:(lia)) as F2.
     cbv beta in F2. rewrite Z.add_0_l in F1, F2. unfold g at 2 in F1. cbv zeta in F1. rewrite F1, F2. eauto.
   - now rewrite E, P.
 Qed.
@@ -170,19 +170,19 @@ Theorem RegularArray_getitem_next_array_advanced_spec tocarry toadvanced fromadv
   (forall i, 0 <= i < length -> 0 <= at_ fromadvanced i < zlen fromarray) ->
   RegularArray_getitem_next_array_advanced tocarry toadvanced fromadvanced fromarray length lenarray size
   = KOk (filled 0 length (fun i => i * size + at_ fromarray (at_ fromadvanced i)) tocarry,
-         filled 0 length (fun i => i) toadvanced).
+         filled 0 length (fun i => at_ fromadvanced i) toadvanced).
 Proof.
   intros Hn H3 H4 H5 Hr. unfold RegularArray_getitem_next_array_advanced.
   match goal with |- kfor 0 length ?b _ = _ =>
     destruct (kfor_inv b (fun j st => st = (filled 0 j (fun i => i * size + at_ fromarray (at_ fromadvanced i)) tocarry,
-                                            filled 0 j (fun i => i) toadvanced))
+                                            filled 0 j (fun i => at_ fromadvanced i) toadvanced))
                 0 length (tocarry, toadvanced)) as (s' & E & P); auto end.
   - intros j st Hj ->. specialize (Hr j Hj).
     rewrite (kget_at fromadvanced) by lia. cbn [kbind]. rewrite (kget_at fromarray) by lia. cbn [kbind].
     rewrite kupd_ok by (rewrite zlen_filled; lia). cbn [kbind].
     rewrite kupd_ok by (rewrite zlen_filled; lia). cbn [kbind].
     pose proof (filled_step 0 j (fun i => i * size + at_ fromarray (at_ fromadvanced i)) tocarry ltac:(lia) ltac:(lia) ltac:(lia)) as F1.
-    pose proof (filled_step 0 j (fun i => i) toadvanced ltac:(lia) ltac:(lia) ltac:(lia)) as F2.
+    pose proof (filled_step 0 j (fun i => at_ fromadvanced i) toadvanced ltac:(lia) ltac:(lia) ltac:(lia)) as F2.
     cbv beta in F1, F2. rewrite Z.add_0_l in F1, F2. rewrite F1, F2. eauto.
   - now rewrite E, P.
 Qed.
